@@ -16,6 +16,8 @@ Section Types.
   (* common/surface_point.rs in 2D, and what line_profiles.rs uses of a CurveStation2: its point and its surface normal *)
   Record SurfacePoint2 := mk_SurfacePoint2 { SurfacePoint2_point : (num * num)%type; SurfacePoint2_normal : (num * num)%type }.
   Record CurveStation2 := mk_CurveStation2 { CurveStation2_pt : (num * num)%type; CurveStation2_nrm : (num * num)%type }.
+  (* parry's Ray in 2D (origin, direction) *)
+  Record Ray := mk_Ray { Ray_origin : (num * num)%type; Ray_dir : (num * num)%type }.
   Record Ball := mk_Ball { Ball_radius : num }.
   Record Circle2 := mk_Circle2 { Circle2_center : (num * num)%type; Circle2_ball : Ball; Circle2_aabb : unit }.
   Record Arc2 := mk_Arc2 { Arc2_circle : Circle2; Arc2_angle0 : num; Arc2_angle : num; Arc2_aabb : unit }.
